@@ -279,7 +279,8 @@ def run(tier):
             first_bad = {m["i"] - 1 for m in mism}
             first_trace = path
         if thorough and c == chunks - 1:
-            zero = [a for a in res.coverage_zero()]
+            # FloatFold / FloatChain consume the records of C11's float-fold stage and C14's long-chain stage; C08's trace holds none
+            zero = [a for a in res.coverage_zero() if a not in ("FloatFold", "FloatChain")]
             if zero:
                 raise C.ToolError("vacuity: trace actions never taken: %s" % zero)
     for need in ("int2", "int1", "float2", "float2/arith", "float1"):
